@@ -183,22 +183,29 @@ def check_single(A, v, Qd, Td, m, tol, dt, kdim, detectable, K=None, spec=None, 
     return out, kdim, detectable
 
 
-def check_scaled(Qs, Ts, Q1, T1, c, dt, A_s, kdim, m, jmax, count_ok=True):
-    """Scale equivariance against the run on the unscaled operator (same dtype, start vector, max_iters, tol): same
-    number of columns, same basis, T = c * T_1, up to rounding.  Compared on the leading well-determined part: the
-    first min(columns, KDim, jmax) columns (all, when the scaling is exact: c a power of two)."""
+def check_scaled(Qs, Ts, Q1, T1, c, dt, A_s, kdim, m, jmax, count_ok=True, tight=None, tq=None):
+    """Equivariance against the reference run (unscaled operator resp. the same start direction in the operator's
+    dtype; same max_iters, tol): same number of columns, same basis, T = c * T_1 (c = None: T = T_1), up to rounding;
+    outputs in the operator's dtype.  Compared on the leading well-determined part: the first min(columns, KDim, jmax)
+    columns (everything, when the variant is exact - tight: factors are powers of two)."""
     rt, _ = kf.tol_of(dt)
     sA = max(float(np.abs(A_s).sum(1).max()), 1e-300)
+    tight = kf.is_pow2(c) if tight is None else tight
+    c = 1.0 if c is None else c
+    tq = (1e-12 if tight else rt) if tq is None else tq
+    if Qs.dtype != Q1.dtype or Ts.dtype != T1.dtype:
+        return (f"outputs have dtypes {Qs.dtype} / {Ts.dtype}, the reference run in the operator's dtype {Q1.dtype} / "
+                f"{T1.dtype}", {"which": "dtype"})
     if Qs.shape != Q1.shape or Ts.shape != T1.shape:
         if count_ok:
             return (f"{Qs.shape[-1]} columns for {c:g}*A but {Q1.shape[-1]} for A", {"which": "columns"})
         return None
     if not (np.all(np.isfinite(Q1)) and np.all(np.isfinite(T1)) and np.all(np.isfinite(Qs)) and np.all(np.isfinite(Ts))):
         return None
-    if kf.is_pow2(c) and count_ok:
-        lead, tq = Qs.shape[1], 1e-12
+    if tight and count_ok:
+        lead = Qs.shape[1]
     else:
-        lead, tq = min(Qs.shape[1], jmax, kdim if kdim is not None else 1), rt
+        lead, tq = min(Qs.shape[1], jmax, kdim if kdim is not None else 1), (tq if not tight else max(tq, rt))
     Qs, Q1 = Qs.astype(np.complex128), Q1.astype(np.complex128)
     Ts, T1 = Ts.astype(np.complex128), T1.astype(np.complex128) * c
     dq = float(np.abs(Qs[:, :lead] - Q1[:, :lead]).max(initial=0.0))
@@ -233,7 +240,8 @@ def call_lanczos(A_op, v, m, tol, n, tag, api="lanczos", kd=0, default_tol=False
             warnings.simplefilter("ignore")
             with np.errstate(all="ignore"):
                 if api == "Lanczos":
-                    Q, T, info = Lanczos(start_vector=v, max_iters=m, **kw)(A_op)
+                    # the object's own default tolerance is another one (1e-6): the comparison needs the same value
+                    Q, T, info = Lanczos(start_vector=v, max_iters=m, tol=tol)(A_op)
                 else:
                     Q, T, info = lanczos(A_op, v, max_iters=m, **kw)
     finally:
@@ -321,9 +329,16 @@ def mk_viol(item, clause, detail, m, extra, n, kdim, batched, api, dt, tol):
     if sc is not None:      # scaled copy of an existing case: the attrs of the original plus the factor
         at["op_scale"] = float(sc)
         at["tol_default"] = item.get("tol") is None
+    var = ""
+    if item.get("start_scale") is not None:
+        at["start_scale"] = float(item["start_scale"])
+        var += f" vscale={item['start_scale']:g}"
+    if item.get("start_dtype"):
+        at["start_dtype"] = item["start_dtype"]
+        var += f" vdtype={item['start_dtype']}"
     at.update(extra)
     case = f"{item['name']} {dt} m={m} tol={tol:g}{' batched' if batched else ''}" \
-           f"{'' if sc is None else f' scale={sc:g}'} {api}"
+           f"{'' if sc is None else f' scale={sc:g}'}{var} {api}"
     rp = dict(item)
     rp["only_m"] = m
     return Violation(PROP, clause, case, at, detail, replay=rp)
@@ -359,8 +374,30 @@ def run_family(item, A, vs, kdims, Ks, specs, eigA, detect_ok, ms, count_ok=True
         A1 = np.real(A1)
     A_t = A.astype(npd)
     herm = cola.SelfAdjoint(cola.ops.Dense(A_t))
-    herm1 = cola.SelfAdjoint(cola.ops.Dense(A1.astype(npd))) if sc is not None else None
-    ca = dict(kd=kd_tr, default_tol=dflt, sc=sc)
+    # start-vector variants (start invariance): the vector handed to cola is c*v and / or given in a dtype other than
+    # the operator's; the reference run takes the same direction in the operator's dtype
+    ssc, sdt = item.get("start_scale"), item.get("start_dtype")
+    variant = sc is not None or ssc is not None or sdt is not None
+    vclause = "scale_equivariance" if (ssc is None and sdt is None) else "start_invariance"
+
+    def mkv(x):
+        y = x * ssc if ssc is not None else x
+        return kf.cast_start(y, sdt) if sdt else y.astype(npd)
+
+    def refv(x):        # a dtype variant keeps the values (rounded to a narrower float): the reference takes them
+        if not sdt:
+            return x.astype(npd)
+        y = mkv(x) if ssc is None else mkv(x).astype(np.complex128) / ssc
+        return (y if np.issubdtype(npd, np.complexfloating) else np.real(y)).astype(npd)
+    dyadic = (sc is None or kf.is_pow2(sc)) and (ssc is None or kf.is_pow2(ssc))
+    # tolerance of the comparison with the reference run: exact variants (powers of two) agree on everything to a few
+    # ulps; a start vector with the same values in another dtype is normalised in ITS dtype before it is promoted, so
+    # the runs agree up to the rounding of the narrower of the two float types (integers: the operator's) on the
+    # well-determined leading part; non-dyadic factors: the relative tolerance of the other clauses
+    tight = dyadic and sdt is None
+    vtol = max(1e-12, 100 * eps) if tight else kf.start_tol(dt, sdt) if dyadic else kf.tol_of(dt)[0]
+    herm1 = cola.SelfAdjoint(cola.ops.Dense(A1.astype(npd))) if variant else None
+    ca = dict(kd=kd_tr, default_tol=dflt, sc=(sc if sc is not None else ssc if ssc is not None else sdt))
     viol, traces, nchk = [], [], 0
     batched = len(vs) > 1
     jmax = 6 if dt in ("f64", "c128") else 4
@@ -371,7 +408,7 @@ def run_family(item, A, vs, kdims, Ks, specs, eigA, detect_ok, ms, count_ok=True
         if exact:       # nothing to gate: every quantity of the run is an exact floating-point number
             hss.append(None)
             continue
-        Kr, hs = kf.ref_for(A_t, x.astype(npd), kdims[b], n, jmax, thr, detect_ok)
+        Kr, hs = kf.ref_for(A_t, refv(x), kdims[b], n, jmax, thr, detect_ok)
         hss.append(hs if kdims[b] is not None else None)
         if Ks[b] is None:
             Ks[b] = Kr
@@ -381,7 +418,7 @@ def run_family(item, A, vs, kdims, Ks, specs, eigA, detect_ok, ms, count_ok=True
         tag = f"{item['name']}|{dt}|{m}"
         try:
             if not batched:
-                v = vs[0].astype(npd)
+                v = mkv(vs[0])
                 Q, T, info, tr = call_lanczos(herm, v, m, tol, n, tag, **ca)
                 traces += tr
                 Qd, Td = np.asarray(Q.to_dense()), dense_T(T)
@@ -391,15 +428,15 @@ def run_family(item, A, vs, kdims, Ks, specs, eigA, detect_ok, ms, count_ok=True
                 for cl, de, ex in res:
                     viol.append(mk_viol(item, cl, de, m, ex, n, kdims[0], False, "lanczos", dt, tol))
                 count_bad = any(cl == "column_count" for cl, _, _ in res)
-                if sc is not None and not any(cl == "finite" for cl, _, _ in res):
-                    Q1, T1, _, _ = call_lanczos(herm1, v, m, tol, n, tag + "|unscaled", **ca)
+                vok = False
+                if variant and not any(cl == "finite" for cl, _, _ in res):
+                    Q1, T1, _, _ = call_lanczos(herm1, refv(vs[0]), m, tol, n, tag + "|reference", **ca)
                     nchk += 1
+                    vok = (det_eff or dyadic) and not count_bad and not kf.null_start(hss[0], A_t)
                     msg = check_scaled(Qd, Td, np.asarray(Q1.to_dense()), dense_T(T1), sc, dt, A_t, kdims[0], m, jmax,
-                                       count_ok=(det_eff or kf.is_pow2(sc)) and not count_bad
-                                       and not kf.null_start(hss[0], A_t))
+                                       count_ok=vok, tight=tight, tq=vtol)
                     if msg:
-                        viol.append(mk_viol(item, "scale_equivariance", msg[0], m, msg[1], n, kdims[0], False, "lanczos",
-                                            dt, tol))
+                        viol.append(mk_viol(item, vclause, msg[0], m, msg[1], n, kdims[0], False, "lanczos", dt, tol))
                 # lanczos_eigs on the same input
                 if item.get("eigs", True):
                     ev, Vd, _, tr2 = call_eigs(herm, v, m, tol, n, tag + "|eigs", **ca)
@@ -410,6 +447,15 @@ def run_family(item, A, vs, kdims, Ks, specs, eigA, detect_ok, ms, count_ok=True
                     vo = count_bad or (kd_eff is not None and Td.shape[0] > min(m, n, kd_eff))
                     for cl, de, ex in check_eigs(A_t, Qd, Td, ev, Vd, m, tol, dt, exh, specs[0], values_only=vo):
                         viol.append(mk_viol(item, cl, de, m, ex, n, kdims[0], False, "lanczos_eigs", dt, tol))
+                    if (ssc is not None or sdt is not None) and vok:    # lanczos_eigs: the Ritz values of the reference
+                        ev1, _, _, _ = call_eigs(herm1, refv(vs[0]), m, tol, n, tag + "|eigs|reference", **ca)
+                        sA_ = max(float(np.abs(A_t).sum(1).max()), 1e-300)
+                        if ev.shape != ev1.shape or not np.all(np.isfinite(ev)) or (
+                                np.all(np.isfinite(ev1)) and ev.shape[0] <= min(jmax, kdims[0] or 1)
+                                and np.abs(np.sort(ev.real) - np.sort(ev1.real)).max(initial=0.0) > max(vtol, 1e-9) * sA_):
+                            viol.append(mk_viol(item, vclause, f"lanczos_eigs returns {np.round(ev, 6).tolist()} but "
+                                                f"{np.round(ev1, 6).tolist()} for the same direction in the operator's dtype",
+                                                m, {"which": "eigs"}, n, kdims[0], False, "lanczos_eigs", dt, tol))
                 # the algorithm object gives the same factorisation
                 if item.get("alg_obj", False):
                     Q2, T2, _, tr3 = call_lanczos(herm, v, m, tol, n, tag + "|obj", api="Lanczos", **ca)
@@ -422,7 +468,7 @@ def run_family(item, A, vs, kdims, Ks, specs, eigA, detect_ok, ms, count_ok=True
                                             "lanczos(A, start_vector, max_iters, tol)", m, {}, n, kdims[0], False,
                                             "Lanczos", dt, tol))
             else:
-                V = np.stack([x.astype(npd) for x in vs], axis=1)      # (n, b)
+                V = np.stack([mkv(x) for x in vs], axis=1)      # (n, b)
                 Q, T, info, tr = call_lanczos(herm, V, m, tol, n, tag + "|batched", **ca)
                 traces += tr
                 QA = np.asarray(Q.A)
@@ -451,14 +497,15 @@ def run_family(item, A, vs, kdims, Ks, specs, eigA, detect_ok, ms, count_ok=True
                                             dict(uni, excess="more" if c > e else "fewer"), n, kmax, True,
                                             "lanczos", dt, tol))
                 Q1A = T1 = None
-                if sc is not None and all(np.all(np.isfinite(x)) for x in Tall) and np.all(np.isfinite(QA)):
-                    Q1, T1, _, _ = call_lanczos(herm1, V, m, tol, n, tag + "|batched|unscaled", **ca)
+                if variant and all(np.all(np.isfinite(x)) for x in Tall) and np.all(np.isfinite(QA)):
+                    Q1, T1, _, _ = call_lanczos(herm1, np.stack([refv(x) for x in vs], axis=1), m, tol, n,
+                                                tag + "|batched|reference", **ca)
                     nchk += 1
                     Q1A = np.asarray(Q1.A)
-                    cok = (detectable or kf.is_pow2(sc)) and kmax is not None and count_ok \
+                    cok = (detectable or dyadic) and kmax is not None and count_ok \
                         and not any(kf.null_start(h, A_t) for h in hss)
                     if Q1A.shape != QA.shape and cok:
-                        viol.append(mk_viol(item, "scale_equivariance", f"batched run on {sc:g}*A returned {c} columns, on A "
+                        viol.append(mk_viol(item, vclause, f"batched variant run returned {c} columns, the reference run "
                                             f"{Q1A.shape[-1]}", m, dict(uni, which="columns"), n, kmax, True, "lanczos", dt,
                                             tol))
                 for b in range(nb):
@@ -469,9 +516,9 @@ def run_family(item, A, vs, kdims, Ks, specs, eigA, detect_ok, ms, count_ok=True
                                              Ks[b], specs[b], eigA, assert_count=False, hs=hss[b], X=Xs[b])
                     if Q1A is not None and Q1A.shape == QA.shape:
                         msg = check_scaled(QA[b][:, :keep], Td[:keep, :keep], Q1A[b][:, :keep], dense_T(T1, b)[:keep, :keep],
-                                           sc, dt, A_t, kb, m, jmax, count_ok=False)
+                                           sc, dt, A_t, kb, m, jmax, count_ok=False, tight=tight, tq=vtol)
                         if msg:
-                            res = list(res) + [("scale_equivariance", msg[0], msg[1])]
+                            res = list(res) + [(vclause, msg[0], msg[1])]
                     for cl, de, ex in res:
                         ex = dict(ex)
                         ex["element"] = b
@@ -639,6 +686,75 @@ def plan_struct(quick):
     return items
 
 
+def in_variant_subset(it, quick):
+    """Deterministic subset of the planned items from which the scaled-operator and start-vector variants are derived."""
+    nonx = ("h1:", "h2c:", "h3pd:", "h3sing:", "h3cind:", "h3rep:", "h4rep:", "h4ind:", "h3tri:", "h3cplain:")
+    starts = (":gen", ":ev1+2", ":ev2+3", ":e1", ":batch-mixed", ":batch-kdim2", "h3cind:ev3", "h3cind:batch-kdim1",
+              "h3pd:ev1", "h4rep:ev1")
+    xm = ("x1r:", "xswap2:", "xdiag3z:", "xblk4h:", "xblk4c:") if quick else \
+        ("x1r:", "xswap2:", "xperm4s:", "xdiag4:", "xdiag4s:", "xdiag3z:", "xblk4h:", "xblk4c:", "xid4:", "xid3s:")
+    sn = ("struct-swaps-batch-n7", "struct-swaps-n200", "struct-hblock-n7", "struct-cblock-n6", "struct-diag-n200")
+    nm, dt = it["name"], it["dt"]
+    if it["src"] == "catalog" and not it.get("exact"):
+        return nm.startswith(nonx) and nm.endswith(starts)
+    if it["src"] == "catalog":
+        return nm.startswith(xm) and not (quick and (it["tol"] != 0 or dt in ("f32", "c128") and it["cases"][0]["real"]))
+    if it["src"] == "struct":
+        return nm.startswith(sn) and not (quick and dt != it["dts"][0])
+    if it["n"] not in ((5, 30, 300) if quick else (1, 2, 5, 13, 30, 64, 300)):
+        return False
+    return not (quick and (it["vkind"] == "eigvec" or it["kind"] in ("pd", "clustered") and "batch" not in nm))
+
+
+def plan_start(items, quick):
+    """Start-invariance family: the same deterministic subset as plan_scaled, the start vector(s) multiplied by
+    c in kf.START_SCALES (1e-30: double precision only; exact-breakdown cases: the dyadic 2^-44, tol = 0 included)
+    and / or handed over in a dtype other than the operator's (kf.start_dtypes: narrower / wider float, real for a
+    complex operator, integer when the entries are integral), single and batched; lanczos, lanczos_eigs and the
+    Lanczos() object.  Every clause of the original applies unchanged (KDim, spans, spectra do not depend on the
+    length or the number type of v); clause start_invariance compares with the run on the same direction in the
+    operator's dtype."""
+    out, seen, k = [], {}, 0
+    for it in items:
+        nm, dt = it["name"], it["dt"]
+        if not in_variant_subset(it, quick) or (quick and it.get("n", 0) >= 100):
+            continue
+        key = (nm, dt)
+        if key in seen:
+            continue
+        seen[key] = True
+        lo = dt in ("f32", "c64")
+        if it["src"] == "catalog":
+            real_v, integral_v = all(all(x[1] == 0 for x in c["v"]) for c in it["cases"]), True
+        elif it["src"] == "struct":
+            real_v, integral_v = True, True
+        else:
+            real_v, integral_v = not it["cplx"], False
+        sd = kf.start_dtypes(dt, real_v, integral_v)
+        if it["src"] == "random" and it["vkind"] != "generic":
+            # rounding the start vector to a narrower float leaves the invariant subspace: KDim would not be known
+            sd = [d for d in sd if kf.start_tol(dt, d) <= 1e3 * float(np.finfo(kf.NPDT[dt]).eps)]
+        if it.get("exact"):
+            var = [(kf.START_SCALE_EXACT, None)] + [(None, d) for d in sd]
+        else:
+            var = [(c, None) for c in kf.START_SCALES if not (lo and c < 1e-20)] + [(None, d) for d in sd] \
+                + ([(1e-13, sd[0])] if sd else [])
+        if quick:
+            var = [var[k % len(var)]]
+        for c, d in var:
+            k += 1
+            cp = dict(it)
+            cp["start_scale"], cp["start_dtype"] = c, d
+            cp["alg_obj"] = it.get("n", 4) <= 16
+            if not it.get("exact") and k % 3 == 0:
+                cp["tol"] = None        # default tolerance (argument omitted)
+            if it["src"] == "random" and it["n"] > 13:
+                cp["ms"] = (it["ms"][-3:] if quick else it["ms"][-5:]) if it["n"] < 100 else it["ms"][1:3]
+                cp["eigs"] = it["n"] <= 30
+            out.append(cp)
+    return out
+
+
 def plan_scaled(items, quick):
     """Scale-equivariance family: scaled copies c*A of a deterministic subset of the items planned above (catalog,
     exact-breakdown, by-construction and random Hermitian cases; single and batched), c in kf.SCALES where the dtype
@@ -647,29 +763,11 @@ def plan_scaled(items, quick):
     clause scale_equivariance compares with the run on A."""
     out = []
     seen = {}
-    nonx = ("h1:", "h2c:", "h3pd:", "h3sing:", "h3cind:", "h3rep:", "h4rep:", "h4ind:", "h3tri:", "h3cplain:")
-    starts = (":gen", ":ev1+2", ":ev2+3", ":e1", ":batch-mixed", ":batch-kdim2", "h3cind:ev3", "h3cind:batch-kdim1",
-              "h3pd:ev1", "h4rep:ev1")
-    xm = ("x1r:", "xswap2:", "xdiag3z:", "xblk4h:", "xblk4c:") if quick else \
-        ("x1r:", "xswap2:", "xperm4s:", "xdiag4:", "xdiag4s:", "xdiag3z:", "xblk4h:", "xblk4c:", "xid4:", "xid3s:")
-    sn = ("struct-swaps-batch-n7", "struct-swaps-n200", "struct-hblock-n7", "struct-cblock-n6", "struct-diag-n200")
     k = 0
     for it in items:
         nm, dt = it["name"], it["dt"]
-        if it["src"] == "catalog" and not it.get("exact"):
-            if not (nm.startswith(nonx) and nm.endswith(starts)):
-                continue
-        elif it["src"] == "catalog":
-            if not nm.startswith(xm) or (quick and (it["tol"] != 0 or dt in ("f32", "c128") and it["cases"][0]["real"])):
-                continue
-        elif it["src"] == "struct":
-            if not nm.startswith(sn) or (quick and dt != it["dts"][0]):
-                continue
-        else:
-            if it["n"] not in ((5, 30, 300) if quick else (1, 2, 5, 13, 30, 64, 300)):
-                continue
-            if quick and (it["vkind"] == "eigvec" or it["kind"] in ("pd", "clustered") and "batch" not in nm):
-                continue
+        if not in_variant_subset(it, quick):
+            continue
         key = (nm, dt)      # one set of scaled copies per (case, dtype): derived from the first tolerance planned
         if key in seen:
             continue
@@ -698,7 +796,7 @@ def plan_scaled(items, quick):
 
 def plan(cs, tier, seed):
     items = plan_unscaled(cs, tier, seed)
-    return items + plan_scaled(items, tier == "quick")
+    return items + plan_scaled(items, tier == "quick") + plan_start(items, tier == "quick")
 
 
 def plan_unscaled(cs, tier, seed):
@@ -847,6 +945,14 @@ def _run(tier, t0, proof):
         "exact_breakdown_items": len([it for it in items if it.get("exact")]),
         "exact_breakdown_items_tol0": len([it for it in items if it.get("exact") and it["tol"] == 0]),
         "exact_breakdown_struct_items": len([it for it in items if it["src"] == "struct" and not it.get("op_scale")]),
+        "start_variant_items": len([it for it in items if it.get("start_scale") or it.get("start_dtype")]),
+        "start_variant_items_by_scale": {f"{c:g}": len([it for it in items if it.get("start_scale") == c])
+                                         for c in kf.START_SCALES + (kf.START_SCALE_EXACT, )},
+        "start_variant_items_by_dtype": {d: len([it for it in items if it.get("start_dtype") == d]) for d in kf.VDT},
+        "start_variant_items_batched": len([it for it in items if (it.get("start_scale") or it.get("start_dtype")) and
+                                            (len(it.get("cases", [])) > 1 or it.get("batch", 1) > 1
+                                             or len(it.get("starts", [])) > 1)]),
+        "tlc_start_scale_invariant_cases": stats.get("start_scale_invariant_cases"),
         "scaled_items": len([it for it in items if it.get("op_scale")]),
         "scaled_items_by_scale": {f"{c:g}": len([it for it in items if it.get("op_scale") == c]) for c in kf.SCALES},
         "scaled_items_batched": len([it for it in items if it.get("op_scale") and (len(it.get("cases", [])) > 1
